@@ -50,10 +50,13 @@ def long_runs(ck, runs, max_limit, first=0, tag="long"):
 
 def run(ck):
     q = ck.tier == "quick"
+    # extreme numerics: every instruction on every boundary operand tuple must return
+    # (no panic) and may abort only on overflow
+    sres, ssumm = vmcheck.mc_step(ck, relevant=vmcheck.c03_relevant)
     rres, rsumm = vmcheck.mc_run(ck)
     stats, instrs = vmcheck.tv(ck, runs_quick=300, runs_thorough=8000)
     n = long_runs(ck, 300 if q else 4000, 20000 if q else 100000)
-    ck.cov["evaluations"] = rsumm["cases"] + stats["events"] + n
+    ck.cov["evaluations"] = ssumm["cases"] + rsumm["cases"] + stats["events"] + n
     ck.cov["distinct_nontrivial"] = rsumm["cases"]
     ck.cov["rule"] = ("MC_PushRun behaviours (program x stack limit x step count), distinct by "
                       "construction; liveness <>(status # running) checked without state constraint")
